@@ -497,8 +497,12 @@ def gen_c04(ch, prof, stall_s=None):
                      'out': [{'name': 'main'}], 'form': ch.pick('gen', ['dict', 'callable'])})
     prev = 's0'
     for i in range(ch.rng_int('gen', 0, 2)):
-        add(f'r{i}', {'sources': [{'from': prev, 'sub': None}], 'out': [{'name': 'main'}],
-                      'proc_ns': gen_proc_pattern(ch, prof), 'form': 'dict'})
+        r = add(f'r{i}', {'sources': [{'from': prev, 'sub': None}], 'out': [{'name': 'main'}],
+                          'proc_ns': gen_proc_pattern(ch, prof), 'form': 'dict'})
+        if _chance(ch, 1, 3):
+            # a relay that is told to call process() with no frames when its sources are silent for a while; this says
+            # nothing about its outputs, for which it still waits as long as it takes
+            r['sources_timeout'] = ch.pick('gen', [100, 300, 50, 1000])
         prev = f'r{i}'
     dur = (stall_s if stall_s is not None else ch.pick('gen', [20, 30, 60])) * SEC
     ksrcs = [{'from': prev, 'sub': None}]
@@ -522,8 +526,18 @@ def gen_c04(ch, prof, stall_s=None):
     add('k', {'sources': ksrcs, 'has_output': False, 'proc_ns': gen_proc_pattern(ch, prof),
               'stall_at': [ch.rng_int('gen', 1, 12), dur]})
     if _chance(ch, 1, 2):
-        add('k2', {'sources': [{'from': prev, 'sub': None}], 'has_output': False,
-                   'proc_ns': gen_proc_pattern(ch, prof)})
+        k2 = add('k2', {'sources': [{'from': prev, 'sub': None}], 'has_output': False,
+                        'proc_ns': gen_proc_pattern(ch, prof)})
+        if _chance(ch, 1, 3):
+            # the publisher is bound on two addresses (not balancing: every frame goes out on both) and its two
+            # synchronized consumers sit on different ones
+            nodes[prev]['n_out'] = 2
+            nodes[prev]['outputs_as_list'] = _chance(ch, 1, 2)
+            which = ch.rng_int('gen', 0, 1)
+            k2['sources'][0]['out_idx'] = which
+            for s in nodes['k']['sources']:
+                if s['from'] == prev:
+                    s['out_idx'] = 1 - which
     if _chance(ch, 1, 3) and prev != 's0':
         add('k3', {'sources': [{'from': 's0', 'sub': None}], 'has_output': False, 'proc_ns': gen_proc_pattern(ch, prof)})
     for nid in order:
